@@ -28,6 +28,7 @@ const (
 	vStr
 	vSym // symbolic integer (e.g. the rune returned by Peek())
 	vNil
+	vZeroStruct // a struct variable declared without initialiser: unassigned fields read as zero
 )
 
 type Val struct {
@@ -177,6 +178,18 @@ func (pe *PE) eval(st *peState, e ast.Expr) Val {
 	case *ast.SelectorExpr:
 		if v, ok := st.sel[types.ExprString(x)]; ok {
 			return v
+		}
+		if base := pe.eval(st, x.X); base.K == vZeroStruct {
+			if b, ok := pe.info.TypeOf(x).Underlying().(*types.Basic); ok {
+				switch {
+				case b.Info()&types.IsInteger != 0:
+					return intVal(0)
+				case b.Info()&types.IsBoolean != 0:
+					return boolVal(false)
+				case b.Info()&types.IsString != 0:
+					return Val{K: vStr}
+				}
+			}
 		}
 		return Val{}
 	case *ast.UnaryExpr:
@@ -544,6 +557,9 @@ func (pe *PE) execStmt(st *peState, s ast.Stmt) []Outcome {
 						} else {
 							// zero value
 							if t := pe.info.TypeOf(nm); t != nil {
+								if _, ok := t.Underlying().(*types.Struct); ok {
+									pe.assign(st, nm, Val{K: vZeroStruct})
+								}
 								if b, ok := t.Underlying().(*types.Basic); ok {
 									switch {
 									case b.Info()&types.IsInteger != 0:
